@@ -361,6 +361,44 @@ func runC11(c *an.Ctx) {
 				useSuffix := tempName.ReplaceAllString(an.Expr(cc.Args[3]), "")
 				c.Check(comparesWithAnchoredLiteral(cc.Args[2]), "R3", shortFn(fnName)+": prefix test only for the literal adjacent to \\A", in.Pos(), "enabled by comparing the first literal with the text that follows the anchor", "the HasPrefix test is enabled by "+usePrefix+": a literal separated from the anchor (\\A.*lit) would be required at position 0")
 				c.Check(comparesWithAnchoredLiteral(cc.Args[3]), "R3", shortFn(fnName)+": suffix test only for the literal adjacent to \\z", in.Pos(), "enabled by comparing the last literal with the text that precedes the anchor", "the HasSuffix test is enabled by "+useSuffix)
+				// positional needles: the prefix test looks at needles[0] and the suffix test at the last needle, so the
+				// needle list may only be reordered when neither positional test is enabled
+				an.Instrs(fn, func(srt ssa.Instruction) {
+					sc := an.CallOf(srt)
+					if sc == nil || sc.StaticCallee() == nil || len(sc.Args) == 0 {
+						return
+					}
+					cal := sc.StaticCallee()
+					if cal.Origin() != nil {
+						cal = cal.Origin()
+					}
+					if cal.Pkg == nil || !(cal.Pkg.Pkg.Path() == "slices" || cal.Pkg.Pkg.Path() == "sort") || !strings.HasPrefix(cal.Name(), "Sort") && cal.Name() != "Slice" && cal.Name() != "Strings" && cal.Name() != "Reverse" {
+						return
+					}
+					if tempName.ReplaceAllString(an.Expr(sc.Args[0]), "") != tempName.ReplaceAllString(an.Expr(cc.Args[0]), "") {
+						return
+					}
+					f := an.FactsAt(srt)
+					isFalse := func(v ssa.Value) bool {
+						if cst, ok := v.(*ssa.Const); ok && cst.Value != nil && cst.Value.String() == "false" {
+							return true
+						}
+						e := an.Expr(v)
+						if f.Has(e, "==", "false") || f.Has(e, "!=", "true") {
+							return true
+						}
+						// the flag is a conjunction: one false conjunct suffices
+						for _, a := range an.CondAtoms(v, true) {
+							if f.Has(a.L, negOp(a.Op), a.R) {
+								return true
+							}
+						}
+						return false
+					}
+					okSort := isFalse(cc.Args[2]) && isFalse(cc.Args[3])
+					c.Check(okSort, "R3", shortFn(fnName)+": needles reordered only when no positional test is used", srt.Pos(), "sort dominated by usePrefix == false && useSuffix == false",
+						"the needle list is sorted although the prefix or suffix test may be enabled ("+shortFacts(f)+"): HasPrefix/HasSuffix is then applied to whichever literal the sort moved to the first/last position, and inputs matching the pattern are rejected")
+				})
 				// the functions computing "the literal next to the anchor" recognise the anchor element with a
 				// predicate that accepts the anchor itself (possibly inside capture groups), never a
 				// concatenation that merely starts/ends with it: (\Ax?)ab has x? between \A and "ab".
@@ -376,6 +414,32 @@ func runC11(c *an.Ctx) {
 				}
 			}
 		})
+	}
+	// trie words are never dropped: trieReconstruct filters the glued words by length, which is harmless only as
+	// long as every suffix is a non-empty string (prefix >= 1 byte + suffix >= 1 byte).  Invariant, by induction
+	// over the two mutually recursive extractors: every string they return is non-empty.
+	extractors := map[*ssa.Function]bool{}
+	for _, n := range []string{"internal/operators.rawExtractSuffixes", "internal/operators.trieReconstruct"} {
+		if f := c.Fn("R3", n); f != nil {
+			extractors[f] = true
+		}
+	}
+	for f := range extractors {
+		nRet := 0
+		an.Instrs(f, func(in ssa.Instruction) {
+			r, ok := in.(*ssa.Return)
+			if !ok || len(r.Results) != 1 {
+				return
+			}
+			nRet++
+			okE, why := elementsNonEmpty(r.Results[0], extractors, 0, map[ssa.Value]bool{})
+			if !okE {
+				c.Bad("R3", fmt.Sprintf("%s: every returned literal is non-empty", shortFn(an.RelName(f))), r.Pos(), "a returned list can contain an empty string ("+why+"): glued to a 1-byte prefix it forms a 1-byte word, which trieReconstruct's length filter drops from an 'any of' set — inputs matching through that alternative are rejected by the prefilter")
+			}
+		})
+		if nRet > 0 {
+			c.Ok("R3", fmt.Sprintf("%s: returns inspected for empty literals", shortFn(an.RelName(f))), f.Pos(), fmt.Sprintf("%d returns", nRet))
+		}
 	}
 	// trie suffixes: the OpConcat case of rawExtractSuffixes does not fall back to literals from inside the branch
 	if rs := c.Fn("R3", "internal/operators.rawExtractSuffixes"); rs != nil {
@@ -571,6 +635,115 @@ func comparesWithAnchoredLiteral(flag ssa.Value) bool {
 				}
 			}
 		}
+	}
+	return false
+}
+
+func negOp(op string) string {
+	switch op {
+	case "==":
+		return "!="
+	case "!=":
+		return "=="
+	case "<":
+		return ">="
+	case ">=":
+		return "<"
+	case ">":
+		return "<="
+	case "<=":
+		return ">"
+	}
+	return "?"
+}
+
+// elementsNonEmpty: every string in the slice value v is provably non-empty.
+func elementsNonEmpty(v ssa.Value, inductive map[*ssa.Function]bool, depth int, seen map[ssa.Value]bool) (bool, string) {
+	if depth > 10 {
+		return false, "too deep"
+	}
+	if seen[v] {
+		return true, ""
+	}
+	seen[v] = true
+	switch x := v.(type) {
+	case *ssa.Const:
+		if x.Value == nil {
+			return true, ""
+		}
+	case *ssa.ChangeType:
+		return elementsNonEmpty(x.X, inductive, depth+1, seen)
+	case *ssa.Convert:
+		return elementsNonEmpty(x.X, inductive, depth+1, seen)
+	case *ssa.Phi:
+		for _, e := range x.Edges {
+			if ok, w := elementsNonEmpty(e, inductive, depth+1, seen); !ok {
+				return false, w
+			}
+		}
+		return true, ""
+	case *ssa.MakeSlice:
+		if k, ok := an.ConstInt(x.Len); ok && k == 0 {
+			return true, ""
+		}
+		return false, "make with a non-zero length yields empty strings"
+	case *ssa.Slice:
+		a, ok := x.X.(*ssa.Alloc)
+		if !ok {
+			return elementsNonEmpty(x.X, inductive, depth+1, seen)
+		}
+		n := 0
+		for _, r := range *a.Referrers() {
+			ia, ok := r.(*ssa.IndexAddr)
+			if !ok {
+				continue
+			}
+			for _, rr := range *ia.Referrers() {
+				st, ok := rr.(*ssa.Store)
+				if !ok || st.Addr != ssa.Value(ia) {
+					continue
+				}
+				n++
+				if !nonEmptyString(st.Val, st) {
+					return false, "element " + tempName.ReplaceAllString(an.Expr(st.Val), "")
+				}
+			}
+		}
+		if n == 0 {
+			return false, "slice literal without stores"
+		}
+		return true, ""
+	case *ssa.Call:
+		if b, ok := x.Call.Value.(*ssa.Builtin); ok && b.Name() == "append" {
+			for _, a := range x.Call.Args {
+				if ok, w := elementsNonEmpty(a, inductive, depth+1, seen); !ok {
+					return false, w
+				}
+			}
+			return true, ""
+		}
+		if callee := x.Call.StaticCallee(); callee != nil && inductive[callee] {
+			return true, ""
+		}
+		return false, "result of " + tempName.ReplaceAllString(an.Expr(v), "")
+	}
+	return false, "value " + tempName.ReplaceAllString(an.Expr(v), "")
+}
+
+func nonEmptyString(v ssa.Value, at ssa.Instruction) bool {
+	if cst, ok := v.(*ssa.Const); ok {
+		return cst.Value != nil && cst.Value.String() != `""`
+	}
+	f := an.FactsAt(at)
+	e := an.Expr(v)
+	if f.Has(e, "!=", `""`) {
+		return true
+	}
+	if lo, _, _ := f.Range("len(" + e + ")"); lo >= 1 {
+		return true
+	}
+	if b, ok := v.(*ssa.BinOp); ok && b.Op.String() == "+" {
+		return nonEmptyString(b.X, at) || nonEmptyString(b.Y, at)
 	}
 	return false
 }
